@@ -46,6 +46,7 @@ static bool NLX = false;
 static bool HEAPCHK = false, HEAPCHK_ALL = false;
 static std::map<const GlobalVariable*, int> tinfoIds;
 static int nVirtualSites = 0, nIndirectSites = 0;
+static long long LONGJMP_CONST = -1;  // value every longjmp of the module passes, when it is one non-zero constant
 
 [[noreturn]] static void die(const string& m) { errs() << "ll2c: " << m << "\n"; exit(2); }
 
@@ -613,8 +614,14 @@ static void emitFunction(const Function& Fn, raw_ostream& O) {
       if (auto* CB = dyn_cast<CallBase>(&I)) {
         const Function* Callee = CB->getCalledFunction();
         if (!Callee)
-          if (auto* Fa = dyn_cast<Function>(CB->getCalledOperand()->stripPointerCastsAndAliases()))
-            if (Fa->getFunctionType() == CB->getFunctionType()) Callee = Fa;
+          if (auto* Fa = dyn_cast<Function>(CB->getCalledOperand()->stripPointerCastsAndAliases())) {
+            // a call through a constant bitcast (e.g. a base-class destructor called on a derived type):
+            // direct when the C-level shapes agree (all pointers are uint8_t*)
+            bool ok = Fa->arg_size() == CB->arg_size() && !Fa->isVarArg() && ctype(Fa->getReturnType()) == ctype(CB->getType());
+            for (unsigned k = 0; ok && k < CB->arg_size(); k++)
+              if (ctype(Fa->getFunctionType()->getParamType(k)) != ctype(CB->getArgOperand(k)->getType())) ok = false;
+            if (Fa->getFunctionType() == CB->getFunctionType() || ok) Callee = Fa;
+          }
         const InvokeInst* Inv = dyn_cast<InvokeInst>(CB);
         auto arg = [&](unsigned k) { return val(CB->getArgOperand(k), &F); };
         auto finishInvoke = [&]() { if (Inv) { B << "  "; emitEdge(&BB, Inv->getNormalDest(), F, B); B << "\n"; } };
@@ -653,7 +660,10 @@ static void emitFunction(const Function& Fn, raw_ostream& O) {
           SjSite& s = F.sj[sjNext++];
           string cont = s.retLabel + "_c";
           B << "  " << s.bufVar << " = " << arg(0) << "; " << val(&I, &F) << " = 0; goto " << cont << ";\n";
-          B << s.retLabel << ": " << val(&I, &F) << " = (uint32_t)ll2c_jmp.val; ll2c_jmp.pending = 0;\n";
+          // returning through longjmp: when every longjmp of the module passes the same constant, use it
+          // literally, so that symbolic execution can decide the `if (setjmp(..) == 0)` that follows
+          if (LONGJMP_CONST > 0) B << s.retLabel << ": ll2c_engine_check(ll2c_jmp.val == " << LONGJMP_CONST << "); " << val(&I, &F) << " = (uint32_t)" << LONGJMP_CONST << "; ll2c_jmp.pending = 0;\n";
+          else B << s.retLabel << ": " << val(&I, &F) << " = (uint32_t)ll2c_jmp.val; ll2c_jmp.pending = 0;\n";
           B << cont << ": ;\n";
           finishInvoke();
           continue;
@@ -814,11 +824,23 @@ int main(int argc, char** argv) {
     globalNames[&G] = uniq(n);
   }
 
+  {  // longjmp value analysis
+    bool all = true; long long c = -1;
+    for (auto& Fn : *M) for (auto& BB : Fn) for (auto& I : BB)
+      if (auto* CB = dyn_cast<CallBase>(&I))
+        if (isNamed(CB->getCalledFunction(), {"longjmp", "_longjmp", "siglongjmp", "__longjmp_chk"})) {
+          auto* CI = dyn_cast<ConstantInt>(CB->getArgOperand(1));
+          if (!CI || CI->getZExtValue() == 0 || (c >= 0 && c != (long long)CI->getZExtValue())) all = false;
+          else c = (long long)CI->getZExtValue();
+        }
+    if (all && c > 0) LONGJMP_CONST = c;
+  }
   string fnsBody, globBody, protos, hdr;
   raw_string_ostream FO(fnsBody), GO(globBody), PO(protos), HO(hdr);
   for (auto& Fn : *M) {
     if (Fn.isIntrinsic()) continue;
     if (NLX && isNamed(&Fn, {"_setjmp", "setjmp", "__sigsetjmp", "sigsetjmp", "longjmp", "_longjmp", "siglongjmp", "__longjmp_chk", "__cxa_throw"})) continue;
+    if (Fn.isDeclaration() && Fn.getName().startswith("__gxx_personality")) continue;  // only named as personality, never called
     FnCtx dummy;
     string p = fnProto(Fn, false, &dummy);
     PO << p << ";\n";
@@ -827,6 +849,7 @@ int main(int argc, char** argv) {
   for (auto& G : M->globals()) {
     if (G.getName() == "llvm.global_ctors" || G.getName() == "llvm.global_dtors" || G.getName() == "llvm.used" || G.getName() == "llvm.compiler.used") continue;
     string ty = ctype(G.getValueType());
+    if (G.isDeclaration() && G.getName().startswith("_ZTV")) { GO << "extern uint8_t* " << globalNames[&G] << "[16];  /* vtable of a runtime-library class: only its address is used */\n"; continue; }
     GO << "extern " << ty << " " << globalNames[&G] << ";\n";
   }
   string ginit;
